@@ -18,3 +18,6 @@ pub use index::{BlockPos, WalIndex};
 pub use walrus::{ReadConsistency, Walrus};
 
 pub(super) static DELETION_TX: OnceLock<Arc<mpsc::Sender<String>>> = OnceLock::new();
+
+#[cfg(walrus_verif)]
+pub(crate) use allocator::verif_trk_snapshot;
